@@ -329,6 +329,26 @@ static int runScript(const char* scriptPath, const char* outPath, int tid) {
             res = classify([&]() { cur->print(); }); std::cout.rdbuf(old); mut = false;
         }
         else if (op == "dump") { dump(*cur); continue; }
+        else if (op == "sep") {      // the separation invariant of lean/Ezc3dVerif/Model/Heap.lean, observed on the real heap:
+                                     // no Points/Analogs object is reachable from two stored frames or from a stored and a caller's frame
+            std::map<const void*, std::string> seenP, seenA; std::string bad;
+            size_t nf = cur->data().nbFrames();
+            for (size_t i = 0; i < nf && bad.empty(); ++i) {
+                const Frame& f = cur->data().frame(i);
+                const void* a = &f.points(); const void* b = &f.analogs();
+                std::string me = "s" + std::to_string(i);
+                if (seenP.count(a)) bad = "points " + seenP[a] + " " + me; else seenP[a] = me;
+                if (bad.empty()) { if (seenA.count(b)) bad = "analogs " + seenA[b] + " " + me; else seenA[b] = me; }
+            }
+            for (auto& kv : vars) {
+                if (!bad.empty()) break;
+                const void* a = &kv.second.points(); const void* b = &kv.second.analogs();
+                if (seenP.count(a)) bad = "points " + seenP[a] + " " + kv.first;
+                else if (seenA.count(b)) bad = "analogs " + seenA[b] + " " + kv.first;
+            }
+            std::fprintf(out, "V sep %s\n", bad.empty() ? "ok" : ("shared " + bad).c_str());
+            continue;
+        }
         else if (op == "pset") {
             Parameter p("P", "");
             std::string sres; setParam(p, t[1], t[2], t[3], sres);
